@@ -41,7 +41,7 @@ KNOWN = {
     "D11": lambda bucket, case: "mode:copied-after" in bucket or "mode:thread-copied-after" in bucket,
     # a task whose context was copied while a public method of the object is in flight skips that object's invariants:
     # only the verdicts of calls on instance 0 that hinge on the invariant differ
-    "D29": lambda bucket, case: "mode:copied-mid-call" in bucket and bucket.endswith("|m:inv") and case.get("d29_only", False),
+    "D29": lambda bucket, case: "mode:copied-mid-call" in bucket and bucket.endswith(("|m:inv", "|s:inv")) and case.get("d29_only", False),
 }
 
 MODES = ["fresh", "copied-before", "copied-after", "thread-copied-after", "copied-mid-call"]
@@ -68,7 +68,10 @@ def program(is_async=True):
     n = f("n", "method", [{"t": "ensure", "cid": 4, "args": ["x"], "lam": False, "flavor": fl, "err": {"form": "default"}}])
     init = {"name": "__init__", "kind": "init", "async": False, "params": ["x", "y"], "defaults": {"x": "None", "y": "None"},
             "decos": [], "body": {"ret": "None"}, "super": "absent"}
-    k0 = {"name": "K0", "bases": [], "root": "DBC", "shape": "plain", "members": [m, n, init],
+    # a plain (sync) method next to the coroutine methods: it runs in one go while a coroutine method of the same object
+    # is suspended in another task
+    s_ = f("s", "method", [], **{"async": False})
+    k0 = {"name": "K0", "bases": [], "root": "DBC", "shape": "plain", "members": [m, n, s_, init],
           "invs": [{"cid": 5, "on": "CALL", "lam": False, "selfarg": True, "err": {"form": "default"}}]}
     return {"funcs": [f0], "classes": [k0]}
 
@@ -87,6 +90,8 @@ CALLS = {
     "n1:post": ({"op": "call", "k": 1, "m": "n"}, {4: "F"}),
     # the constructor of the EXISTING shared object is run again (obj.__init__()): a checked constructor call in flight
     "reinit": ({"op": "reinit", "k": 0}, {}),
+    "s:ok": ({"op": "call", "k": 0, "m": "s", "sync": True}, {}),
+    "s:inv": ({"op": "call", "k": 0, "m": "s", "sync": True}, {5: "F"}),
     "new": ({"op": "new", "cls": 0, "k": 2}, {}),
     "new:inv": ({"op": "new", "cls": 0, "k": 2}, {5: "F"}),
 }
@@ -209,6 +214,10 @@ def run_async_schedule(loaded, names, mode, schedule):
                         kw = ex.arg_objects(t["op"])
                         if t["op"]["op"] == "callf":
                             t["coro"] = getattr(loaded.mod, t["op"]["f"])(**kw)
+                        elif t["op"]["op"] == "call" and t["op"].get("sync"):
+                            t["done"] = True
+                            t["out"] = classify(loaded, run, lambda: getattr(ex.inst[t["op"]["k"]], t["op"]["m"])(**kw))
+                            return
                         elif t["op"]["op"] == "call":
                             t["coro"] = getattr(ex.inst[t["op"]["k"]], t["op"]["m"])(**kw)
                         elif t["op"]["op"] == "reinit":
@@ -433,9 +442,9 @@ def check_scenario(ctx, names, mode, is_async, schedules):
         diffs = [i for i, (e, o) in enumerate(zip(expect, outs)) if e != o]
         # every difference is "the invariant of instance 0 was not checked for m:inv" (finding D29)?
         case["d29_only"] = bool(diffs) and mode == "copied-mid-call" and all(
-            names[i] == "m:inv" and outs[i][0] == "ret" for i in diffs)
+            names[i] in ("m:inv", "s:inv") and outs[i][0] == "ret" for i in diffs)
         for i, (e, o) in enumerate(zip(expect, outs)):
-            if e != o and "D29" in active and mode == "copied-mid-call" and names[i] == "m:inv" and o[0] == "ret":
+            if e != o and "D29" in active and mode == "copied-mid-call" and names[i] in ("m:inv", "s:inv") and o[0] == "ret":
                 ctx.excluded_by_known += 1  # finding D29, excluded by construction while its reproducer still fails
                 continue
             if e != o:
@@ -446,12 +455,12 @@ def check_scenario(ctx, names, mode, is_async, schedules):
                 return
 
 
-SEGMENTS = {"reinit": 1, "f0:ok": 5, "f0:pre": 3, "f0:pre6": 2, "f0:post": 5, "m:ok": 3, "m:pre": 2, "m:inv": 1, "n:ok": 3, "n:post": 3, "n1:post": 3,
+SEGMENTS = {"reinit": 1, "s:ok": 1, "s:inv": 1, "f0:ok": 5, "f0:pre": 3, "f0:pre6": 2, "f0:post": 5, "m:ok": 3, "m:pre": 2, "m:inv": 1, "n:ok": 3, "n:post": 3, "n1:post": 3,
             "new": 1, "new:inv": 1}
 
 
 # threads are also switched inside the (synchronous) invariant: one more segment per evaluation
-SEGMENTS_THREADS = dict(SEGMENTS, **{"m:ok": 5, "m:pre": 3, "m:inv": 2, "n:ok": 5, "n:post": 5, "n1:post": 5, "new": 3, "new:inv": 3, "reinit": 3})
+SEGMENTS_THREADS = dict(SEGMENTS, **{"m:ok": 5, "m:pre": 3, "m:inv": 2, "n:ok": 5, "n:post": 5, "n1:post": 5, "new": 3, "new:inv": 3, "reinit": 3, "s:ok": 3, "s:inv": 2})
 
 
 def segments(name, is_async):
@@ -478,6 +487,8 @@ FIXED = [
     (["m:ok", "m:inv"], False), (["n1:post", "m:inv"], False), (["new", "m:inv"], False), (["m:ok", "new:inv"], False),
     # the constructor of the shared object is in flight in one thread while another thread uses the object
     (["reinit", "m:inv"], False), (["reinit", "n:post"], False), (["reinit", "m:pre"], False),
+    # a sync method of the object whose coroutine method is suspended in another task
+    (["m:ok", "s:inv"], True), (["n:ok", "s:inv"], True), (["n:post", "s:ok"], True), (["m:ok", "s:inv"], False),
 ]
 
 
